@@ -119,10 +119,11 @@ const (
 	ErrBefore              // the call fails with a 500 and has no effect
 	LostResponse           // the call takes effect, the caller sees a timeout
 	Crash                  // the process dies before the call is sent
+	ForeignWrite           // another actor's write to the call's target lands just before the call (resourceVersion bump)
 )
 
 func (f FaultKind) String() string {
-	return [...]string{"none", "error-before", "lost-response", "crash"}[f]
+	return [...]string{"none", "error-before", "lost-response", "crash", "foreign-write-before"}[f]
 }
 
 // Plan steers one pass.
@@ -199,6 +200,8 @@ func (h *hook) Before(r *kmodel.Request) error {
 	h.pass.Reqs = append(h.pass.Reqs, r)
 	if h.plan != nil && h.plan.Fault != NoFault && idx == h.plan.FaultAt {
 		switch h.plan.Fault {
+		case ForeignWrite:
+			h.w.S.Touch(r.Key)
 		case ErrBefore:
 			r.Err = apierrors.NewInternalError(fmt.Errorf("injected fault before effect"))
 			r.Post = r.Pre
